@@ -18,13 +18,13 @@ NEEDS = ["harness", "cli"]
 KINDS = ["complete", "partial", "multiallelic", "insufficient", "exact"]
 RULE = ("L1: histories of 2-200 records over 2-8 samples in 1-3 populations, records drawn from the five site kinds (complete, partially missing "
         "but projectable, multiallelic, insufficient, exactly sufficient) with small state spaces so that identical allele counts recur with "
-        "different totals, with and without projection; cohorts of 90-230 samples whose number of called samples rises and falls from record to record (more than 170 called chromosomes, projected down); histories with failing records (a non-diploid genotype in a selected sample) that the caller reads past; each step compared with a fresh-reader replica, and the accumulated spectrum with the "
+        "different totals, with and without projection; cohorts of 90-230 samples whose number of called samples rises and falls from record to record (more than 170 called chromosomes, projected down); histories with failing records (a non-diploid genotype in a selected sample) that the caller reads past; records for which the genotype reader hands over fewer genotypes than samples (release and checked build must answer alike); each step compared with a fresh-reader replica, and the accumulated spectrum with the "
         "sum of the replicas' contributions. C: spectrum(A||B) == spectrum(A)+spectrum(B) and permutation invariance (exact without projection, "
         "1e-9*R with). Non-trivial: history with >= 3 distinct site kinds and a repeated allele-count vector; distinct = digest(history, map, target). "
         "The evidence lists how often each ordered pair of kinds was observed.")
 ASSUMPTIONS = ["replica comparison is bit-exact: the same code on the same numbers must give the same bits",
                "the fresh reader is the real code too; absolute correctness of a single record is C01/C02's job"]
-FLOORS = {"quick": {"evaluations": 2000, "distinct_nontrivial": 800, "counts": {"L1_steps": 60000, "C_relations": 90, "L1_cohort_histories": 100, "L1_histories_with_failing_records": 200, "L1_failing_records_read_past": 200, "C_wide_target_cases": 30}},
+FLOORS = {"quick": {"evaluations": 2000, "distinct_nontrivial": 800, "counts": {"L1_steps": 60000, "C_relations": 90, "L1_cohort_histories": 100, "L1_histories_with_failing_records": 200, "L1_failing_records_read_past": 200, "C_wide_target_cases": 30, "both_builds_short_records": 150}},
           "thorough": {"evaluations": 150000, "distinct_nontrivial": 50000, "counts": {"L1_steps": 4000000, "C_relations": 2500}}}
 NSHARD = 32
 
@@ -378,6 +378,30 @@ def check_C_value_less(S, p):
     S.case(key=digest([lines, project]), nontrivial=True)
 
 
+def check_L1_short_records(S, p):
+    """A genotype reader (any implementation of the library's reader trait, or a BCF record) may hand over FEWER genotypes than it has
+    samples. Whatever the site reader makes of such a record, it must not read memory it was not given: the release and the checked
+    build answer alike, and the records around it are read as if it were not there."""
+    rng = rng_for(S.seed, "c11", p["name"], "short")
+    reqs = []
+    for _ in range(6):
+        ns = rng.randint(2, 7)
+        samples = ["s%d" % j for j in range(ns)]
+        smap = G.random_sample_map(rng, samples, npops=rng.randint(1, min(3, ns)), subset=False) if rng.random() < 0.7 else [(s_, None) for s_ in samples]
+        project = G.random_project(rng, smap) if rng.random() < 0.4 else None
+        recs = []
+        for _ in range(rng.randint(3, 8)):
+            full = "".join(str(rng.choice([0, 1, 2, 0, 3])) for _ in range(ns))
+            recs.append(full if rng.random() < 0.6 else full[:rng.randrange(0, ns)])
+        reqs.append({"op": "site_hist", "samples": samples, "map": E.map_json(smap), "project": None if project is None else [m + 1 for m in project],
+                     "records": recs, "fresh": False, "after_error": "continue"})
+    res = harness.both_builds(S, "C11", reqs, "short_records")
+    for q, r in zip(reqs, res):
+        if "panic" in r or r.get("died"):
+            S.viol("C11:short-record:panic", "[L1 records %r for %d samples] %s" % (q["records"], len(q["samples"]), str(r)[:200]), {"level": "L1", "request": q})
+        S.case(key=digest([q["records"], q["map"], "short"]), nontrivial=True)
+
+
 def shard(S, p):
     if "replay" in p:
         if p["replay"].get("level") == "L1":
@@ -386,5 +410,6 @@ def shard(S, p):
             S.inconc("C witnesses carry the inputs for manual replay")
         return
     check_L1(S, p)
+    check_L1_short_records(S, p)
     check_C(S, p)
     check_C_value_less(S, p)
